@@ -102,7 +102,7 @@ var pubKeyPool = func() []string {
 		b64(pre(2, rep(0, 32))), b64(pre(3, rep(0xff, 32))), // valid prefix, x = 0 / x >= p
 		b64(pre(2, rep(5, 32))), b64(pre(3, rep(7, 32))), // valid prefix, x most likely not on the curve
 		b64(pre(4, tss[1:])), b64(pre(0, tss[1:])), b64(pre(5, tss[1:])), // a real x under a wrong prefix
-		b64(pre(3, tss[1:])),                                             // the other root: valid
+		b64(pre(3, tss[1:])),                                    // the other root: valid
 		b64(tss[:32]), b64(append(append([]byte{}, tss...), 0)), // 32 and 34 bytes
 		b64(pre(4, rep(0, 64))), b64(pre(4, rep(0xff, 64))), b64(rep(0, 65)), b64(rep(1, 64)), // uncompressed forms, invalid points
 	}
@@ -148,6 +148,7 @@ type deep struct {
 	issued      []issuedTok
 	pairs       []tokPair
 	unwraps     []unwrapReq
+	acc         accel // the accelerator life cycle (accel.go)
 }
 
 func tssSign(msg []byte) string {
@@ -673,6 +674,9 @@ func (w *world) deepSetup() {
 func (w *world) deepStep() {
 	k := w.rng.Intn(10)
 	switch {
+	case w.accelAvailable() && (k >= 8 || !w.deep.bridgeReady && k >= 5):
+		// the accelerator life cycle: half of the deep steps where there is no bridge, a fifth where there is one
+		w.accelOp()
 	case w.deep.bridgeReady && k < 5:
 		w.bridgeOp()
 	case w.deep.liqReady && k == 5:
